@@ -237,12 +237,12 @@ def run_case(case):
     if vs and proto == "luba":
         # root-cause attribution for the buffer overrun: first length byte 21..23 at a length position
         for kind, i, ln in ref["trace"]:
-            if kind == "bad-length" and 21 <= ln <= 23:
+            if kind == "bad-length" and 21 <= ln <= 23 and any("data_received-raised:IndexError" in v[0] for v in vs):
                 pre, _ = _judge(proto, stream[:i], [])
                 if not [v for v in pre if v[0] not in CONFIRMED]:
                     return pre + [("C19:luba-length-overrun",
-                             "length byte %d at offset %d (frame start %d): the receiver accepts it (guard is "
-                             "'0 < length < 24') although 3+length+1 bytes do not fit its 24-entry buffer; it then "
+                             "length byte %d at offset %d (frame start %d): the receiver accepts it "
+                             "although 3+length+1 bytes do not fit its 24-entry buffer; it then "
                              "raises IndexError at offset %d and on every later byte, or swallows the following "
                              "frames.  first symptom: %s" % (ln, i + 2, i, i + 24, vs[0][1][:300]))]
                 break
